@@ -1,10 +1,14 @@
 (* C08 — all parsing entry points agree with one another.  Statements only.
-   PARTIAL: the equivalence `parse_string(parse_all=True) <=> (expr + StringEnd())` and the completeness of scan_string
-   ("no skipped position would have matched") are decided on the implementation by the oracle of tools/props/c08.py, not
-   proved here; what is proved holds for EVERY handler `rec` interpreting the `_parse` calls (plain, packrat, ...). *)
+   What is proved about the drivers (parse_string / scan_string) holds for EVERY handler `rec` interpreting the `_parse` calls
+   (plain, packrat, ...); the comparison with the And that `expr + StringEnd()` builds is about the plain parser
+   `parse (step G) fuel`, for every fuel.
+   PARTIAL: `parse_string(parse_all=True) <=> (expr + StringEnd())` is FALSE in general on the code as it is (F-08a, F-08d and
+   two more members of the family, all with closed witnesses below); it is proved under the hypotheses first_stable /
+   tail_stable (Proofs/EntryProofs.v), which the witnesses show to be needed.  Overlap mode is covered only by
+   C08_scan_max_matches; scan completeness with ignore expressions needs a handler whose pre-parse does not move backwards. *)
 From Coq Require Import List ZArith NArith Bool String.
 From PP Require Import Model.Str Model.Results Model.Prog Model.Core Model.Entry Proofs.ScanProofs Gen.GenEntry.
-From PP Require Import Model.Transform Proofs.TransformProofs.
+From PP Require Import Model.Transform Proofs.TransformProofs Model.EntryExtra Proofs.EntryProofs.
 Import ListNotations.
 
 (* the derived entry points are defined in the source as the model defines them (regenerated every run) *)
@@ -91,3 +95,197 @@ Theorem C08_transform_falsy_refuted : exists orig ms,
   transform orig ms <> transform_ref orig ms 0 /\
   transform orig ms = [120%N; 121%N] /\ transform_ref orig ms 0 = [120%N; 48%N; 121%N].
 Proof. exact transform_falsy_refuted. Qed.
+
+(* ================================================================================================================= *)
+(* parse_all                                                                                                          *)
+(* ================================================================================================================= *)
+(* parse_all only checks for the end of the text: a successful parse_string(parse_all=True) returns the very ParseResults
+   (tokens and names) of the plain parse_string — every handler, every grammar, every input, keepTabs or not *)
+Theorem C08_parse_all_tokens : forall rec dw root keeptabs input r,
+  drun rec (parse_string dw root keeptabs input true) = Some (POk r) ->
+  drun rec (parse_string dw root keeptabs input false) = Some (POk r).
+Proof. exact parse_all_tokens. Qed.
+
+Example C08_parse_all_tokens_instance : exists r,      (* Word("ab") + "," on "ab , " *)
+  drun (parse (step []) 4) (parse_string DWS ex_and true ex_in2 true) = Some (POk r) /\
+  drun (parse (step []) 4) (parse_string DWS ex_and true ex_in2 false) = Some (POk r) /\ List.length (toks r) = 2.
+Proof. exact ex_parse_all_tokens. Qed.
+
+(* and a plain parse_string that raises (or spins) makes parse_string(parse_all=True) raise the same exception *)
+Theorem C08_parse_all_plain_failure : forall rec dw root keeptabs input res,
+  drun rec (parse_string dw root keeptabs input false) = Some res -> (forall r, res <> POk r) ->
+  drun rec (parse_string dw root keeptabs input true) = Some res.
+Proof. exact parse_all_plain_failure. Qed.
+
+Example C08_parse_all_plain_failure_instance : exists x,      (* Word("ab") + "," on " ab " *)
+  drun (parse (step []) 4) (parse_string DWS ex_and true ex_in1 false) = Some (PErr x) /\
+  drun (parse (step []) 4) (parse_string DWS ex_and true ex_in1 true) = Some (PErr x).
+Proof. exact ex_parse_all_plain_failure. Qed.
+
+(* parse_string(parse_all=True) succeeds exactly when `root + StringEnd()` (Model/EntryExtra.v `and_se`: the And as And.__init__
+   and streamline() make it) parses the string, with the same tokens and names (and_wrap r = r with the modal flag set) -
+   for the plain parser at every fuel (the And needs one level more: root sits one level deeper in it), PROVIDED
+     flattenable root = false : root is not an unnamed, action-free And (that case is the next theorem);
+     plainpre root            : root has no ignore expressions (and is not LineStart / GoToColumn);          [else F-08a]
+     first_stable             : started where the And starts it - after the whitespace skip the And inherited, without root's
+                                own pre-parse - root answers as in parse_string's own call;                  [else F-08d]
+     tail_stable              : root's own whitespace skip before the end check of parse_all reaches the end of the text
+                                exactly when StringEnd's default skip does.
+   PARTIAL: these hypotheses are needed (see the _refuted theorems); first_stable_plain / first_stable_noskip and
+   tail_stable_sub (Proofs/EntryProofs.v) give syntactic conditions - see C08_parse_all_iff_stringend_plain_partial. *)
+Theorem C08_parse_all_iff_stringend_partial : forall G dw idA idE sl root (keeptabs : bool) input f,
+  let s := if keeptabs then input else expandtabs input in
+  flattenable root = false -> plainpre root -> first_stable G dw root s -> tail_stable dw root s ->
+  (forall r, drun (parse (step G) (S (S f))) (parse_string dw root keeptabs input true) = Some (POk r) ->
+     exists l, parse (step G) (S (S (S f))) (mkargs (and_se idA idE sl dw root) s 0 true true) = Some (Ok l (and_wrap r))) /\
+  (forall l r', parse (step G) (S (S (S f))) (mkargs (and_se idA idE sl dw root) s 0 true true) = Some (Ok l r') ->
+     exists r, drun (parse (step G) (S (S f))) (parse_string dw root keeptabs input true) = Some (POk r) /\ r' = and_wrap r).
+Proof. exact parse_all_iff_and_se. Qed.
+
+(* The general form.  The And reads exprs[0].skipWhitespace / whiteChars at the moment `+` is evaluated; for a MatchFirst / Or that
+   was never streamlined these may differ from what streamline() computes later, so `and_se_gen` takes the inherited pair
+   (isk, iwh) explicitly (`and_se` = the pair of the streamlined root; both constructions are compared with the real objects on
+   every run).  first_stable_at: started at the position the And reaches with the inherited pair, root answers as at 0 with its
+   own pre-parse. *)
+Theorem C08_parse_all_iff_stringend_inherited_partial : forall G dw idA idE sl isk iwh root (keeptabs : bool) input f,
+  let s := if keeptabs then input else expandtabs input in
+  flattenable root = false -> plainpre root -> first_stable_at G root s (and_start_gen isk iwh s) -> tail_stable dw root s ->
+  (forall r, drun (parse (step G) (S (S f))) (parse_string dw root keeptabs input true) = Some (POk r) ->
+     exists l, parse (step G) (S (S (S f))) (mkargs (and_se_gen idA idE sl dw isk iwh root) s 0 true true) = Some (Ok l (and_wrap r))) /\
+  (forall l r', parse (step G) (S (S (S f))) (mkargs (and_se_gen idA idE sl dw isk iwh root) s 0 true true) = Some (Ok l r') ->
+     exists r, drun (parse (step G) (S (S f))) (parse_string dw root keeptabs input true) = Some (POk r) /\ r' = and_wrap r).
+Proof. exact parse_all_iff_and_se_gen. Qed.
+
+Theorem C08_parse_all_iff_stringend_inherited_flat_partial : forall G dw idA idE sl isk iwh ar c rest (keeptabs : bool) input f,
+  let root := Nary ar [] NAnd (c :: rest) in
+  let s := if keeptabs then input else expandtabs input in
+  rsname ar = None -> acts ar = [] -> and_pl ar s 0 true = and_start_gen isk iwh s -> tail_stable dw root s ->
+  (forall r, drun (parse (step G) (S (S f))) (parse_string dw root keeptabs input true) = Some (POk r) ->
+     exists l, parse (step G) (S (S (S f))) (mkargs (and_se_gen idA idE sl dw isk iwh root) s 0 true true) = Some (Ok l (and_wrap r))) /\
+  (forall l r', parse (step G) (S (S (S f))) (mkargs (and_se_gen idA idE sl dw isk iwh root) s 0 true true) = Some (Ok l r') ->
+     exists r, drun (parse (step G) (S (S (S f)))) (parse_string dw root keeptabs input true) = Some (POk r) /\ r' = and_wrap r).
+Proof. exact parse_all_iff_and_se_flat_gen. Qed.
+
+(* the same with syntactic hypotheses: a root that pre-parses itself (callPreparse), is not a White, has no ignore expressions,
+   and whose whitespace characters are among the default ones *)
+Theorem C08_parse_all_iff_stringend_plain_partial : forall G dw idA idE sl root (keeptabs : bool) input f,
+  let s := if keeptabs then input else expandtabs input in
+  flattenable root = false -> plainpre root -> callpre (attrs_of root) = true -> is_white root = false ->
+  (forall c, mem_char c (white (attrs_of root)) = true -> mem_char c dw = true) ->
+  (forall r, drun (parse (step G) (S (S f))) (parse_string dw root keeptabs input true) = Some (POk r) ->
+     exists l, parse (step G) (S (S (S f))) (mkargs (and_se idA idE sl dw root) s 0 true true) = Some (Ok l (and_wrap r))) /\
+  (forall l r', parse (step G) (S (S (S f))) (mkargs (and_se idA idE sl dw root) s 0 true true) = Some (Ok l r') ->
+     exists r, drun (parse (step G) (S (S f))) (parse_string dw root keeptabs input true) = Some (POk r) /\ r' = and_wrap r).
+Proof. exact parse_all_iff_and_se_plain. Qed.
+
+Example C08_parse_all_iff_stringend_instance : exists r l,      (* Word("ab") on " ab " *)
+  drun (parse (step []) 3) (parse_string DWS (ex_word 1) true ex_in1 true) = Some (POk r) /\
+  parse (step []) 4 (mkargs (and_se 100 101 20 DWS (ex_word 1)) ex_in1 0 true true) = Some (Ok l (and_wrap r)) /\
+  toks r = [TStr [97; 98]%N].
+Proof. exact ex_parse_all_iff. Qed.
+
+(* a root that IS an unnamed, action-free And (without ignore expressions, pre-parsing itself as every And does): streamline()
+   splices its elements into the new And; each direction moves up one level of fuel *)
+Theorem C08_parse_all_iff_stringend_flat_partial : forall G dw idA idE sl ar c rest (keeptabs : bool) input f,
+  let root := Nary ar [] NAnd (c :: rest) in
+  let s := if keeptabs then input else expandtabs input in
+  rsname ar = None -> acts ar = [] -> callpre ar = true -> tail_stable dw root s ->
+  (forall r, drun (parse (step G) (S (S f))) (parse_string dw root keeptabs input true) = Some (POk r) ->
+     exists l, parse (step G) (S (S (S f))) (mkargs (and_se idA idE sl dw root) s 0 true true) = Some (Ok l (and_wrap r))) /\
+  (forall l r', parse (step G) (S (S (S f))) (mkargs (and_se idA idE sl dw root) s 0 true true) = Some (Ok l r') ->
+     exists r, drun (parse (step G) (S (S (S f)))) (parse_string dw root keeptabs input true) = Some (POk r) /\ r' = and_wrap r).
+Proof. exact parse_all_iff_and_se_flat. Qed.
+
+Example C08_parse_all_iff_stringend_flat_instance : exists r l,      (* Word("ab") + "," on "ab , " *)
+  drun (parse (step []) 3) (parse_string DWS ex_and true ex_in2 true) = Some (POk r) /\
+  parse (step []) 4 (mkargs (and_se 100 101 24 DWS ex_and) ex_in2 0 true true) = Some (Ok l (and_wrap r)) /\
+  and_se 100 101 24 DWS ex_and = Nary (and_attrs 100 24 DWS ex_and) [] NAnd [ex_word 2; ex_lit 3 44%N; se_tok 101 DWS].
+Proof. exact ex_parse_all_iff_flat. Qed.
+
+(* F-08a on the model: ZeroOrMore(Word("ab")).ignore("#" + Word("ab")) on "a #b " - parse_all pre-parses with root's ignore
+   expressions before the end check and succeeds, the And (which has none) raises ParseException *)
+Theorem C08_parse_all_iff_stringend_ignore_refuted : exists G dw root input idA idE sl f r x,
+  flattenable root = false /\ ign_of root <> [] /\
+  drun (parse (step G) (S (S f))) (parse_string dw root true input true) = Some (POk r) /\
+  parse (step G) (S (S (S f))) (mkargs (and_se idA idE sl dw root) input 0 true true) = Some (Err x) /\ is_pe (xk x) = true.
+Proof.
+  exists [], DWS, f08a_root, f08a_input, 100, 101, 25, 10.
+  exact f08a_witness.
+Qed.
+
+(* F-08d on the model: Or([Group(White(" ")) + "a" + "b", MatchFirst(["a", "c"])]) on " ab" - every hypothesis but
+   first_stable holds: the Or does not pre-parse itself, the And skips the blank the first alternative's White needs *)
+Theorem C08_parse_all_iff_stringend_nested_white_refuted : exists G dw root input idA idE sl f r x,
+  flattenable root = false /\ plainpre root /\ tail_stable dw root input /\ ~ first_stable G dw root input /\
+  drun (parse (step G) (S (S f))) (parse_string dw root true input true) = Some (POk r) /\
+  parse (step G) (S (S (S f))) (mkargs (and_se idA idE sl dw root) input 0 true true) = Some (Err x) /\ is_pe (xk x) = true.
+Proof.
+  exists [], DWS, f08d_root, f08d_input, 100, 101, 52, 10.
+  exact f08d_witness.
+Qed.
+
+(* same family, root = White(" ") on "\n ": the And built on a White skips nothing, parse_string's own call does *)
+Theorem C08_parse_all_iff_stringend_white_root_refuted : exists G dw root input idA idE sl f r x,
+  flattenable root = false /\ plainpre root /\ is_white root = true /\
+  drun (parse (step G) (S (S f))) (parse_string dw root true input true) = Some (POk r) /\
+  parse (step G) (S (S (S f))) (mkargs (and_se idA idE sl dw root) input 0 true true) = Some (Err x) /\ is_pe (xk x) = true.
+Proof.
+  exists [], DWS, ex_white_root, ex_white_input, 100, 101, 20, 10.
+  exact white_root_witness.
+Qed.
+
+(* same family, root = Word("ab").set_whitespace_chars(" ,") on "ab,": every hypothesis but tail_stable holds; parse_all skips
+   root's "," before its end check, StringEnd does not *)
+Theorem C08_parse_all_iff_stringend_custom_white_refuted : exists G dw root input idA idE sl f r x,
+  flattenable root = false /\ plainpre root /\ first_stable G dw root input /\
+  drun (parse (step G) (S (S f))) (parse_string dw root true input true) = Some (POk r) /\
+  parse (step G) (S (S (S f))) (mkargs (and_se idA idE sl dw root) input 0 true true) = Some (Err x) /\ is_pe (xk x) = true.
+Proof.
+  exists [], DWS, ex_word_ws, ex_word_ws_input, 100, 101, 20, 10.
+  exact custom_white_witness.
+Qed.
+
+(* ================================================================================================================= *)
+(* scan_string: completeness                                                                                          *)
+(* ================================================================================================================= *)
+(* `lsearch rec root s always_skip loc matches fin` (Proofs/EntryProofs.v) is the left-to-right search from loc: a position is
+   passed WITHOUT a report only where the direct parse at the pre-parsed position raises ParseException (ls_skip_fail) or matches
+   without getting beyond the position the search has reached (ls_skip_zero), and the search resumes one character after the
+   pre-parsed position.  The non-overlapping, unlimited scan_string IS that search from 0 - for every handler, for an
+   expression without ignore expressions; the loop counter never runs out (no spurious SDiv). *)
+Theorem C08_scan_complete : forall rec root keeptabs input always_skip res fin,
+  plainpre root ->
+  drun rec (scan_string root keeptabs input None false always_skip) = Some (res, fin) ->
+  lsearch rec root (if keeptabs then input else expandtabs input) always_skip 0 res fin.
+Proof. exact scan_complete. Qed.
+
+(* with ignore expressions: for every handler whose pre-parse never moves backwards *)
+Theorem C08_scan_complete_ignorables_partial : forall rec root (keeptabs : bool) input always_skip res fin,
+  let s := if keeptabs then input else expandtabs input in
+  (forall loc preloc p0, prep rec root s always_skip loc = Some (Ok preloc p0) -> (loc <= preloc)%nat) ->
+  drun rec (scan_string root keeptabs input None false always_skip) = Some (res, fin) ->
+  lsearch rec root s always_skip 0 res fin.
+Proof. exact scan_complete_gen. Qed.
+
+(* the search is a function of its starting point: "exactly the matches a left-to-right search finds" *)
+Theorem C08_search_deterministic : forall rec root s always_skip loc l1 f1 l2 f2,
+  lsearch rec root s always_skip loc l1 f1 -> lsearch rec root s always_skip loc l2 f2 -> l1 = l2 /\ f1 = f2.
+Proof. exact (fun rec root s al loc l1 f1 l2 f2 H1 H2 => lsearch_det rec root s al loc l1 f1 H1 l2 f2 H2). Qed.
+
+Example C08_scan_complete_instance : exists res,      (* Word("ab") over "a 1 b": "1" is passed without a report *)
+  drun (parse (step []) 3) (scan_string (ex_word 1) true ex_in3 None false true) = Some (res, SDone) /\
+  map (fun m => (snd (fst m), snd m)) res = [(0, 1); (4, 5)] /\
+  lsearch (parse (step []) 3) (ex_word 1) ex_in3 true 0 res SDone.
+Proof. exact ex_scan_complete. Qed.
+
+(* max_matches = n reports the first n matches of the unlimited scan (overlapping or not, with or without
+   always_skip_whitespace, with or without ignore expressions) *)
+Theorem C08_scan_max_matches : forall rec root keeptabs input overlap always_skip n res fin,
+  drun rec (scan_string root keeptabs input None overlap always_skip) = Some (res, fin) ->
+  exists fin', drun rec (scan_string root keeptabs input (Some n) overlap always_skip) = Some (firstn n res, fin').
+Proof. exact scan_max_matches. Qed.
+
+Example C08_scan_max_matches_instance : exists res fin',
+  drun (parse (step []) 3) (scan_string (ex_word 1) true ex_in3 None false true) = Some (res, SDone) /\ List.length res = 2 /\
+  drun (parse (step []) 3) (scan_string (ex_word 1) true ex_in3 (Some 1) false true) = Some (firstn 1 res, fin').
+Proof. exact ex_scan_max_matches. Qed.
